@@ -97,6 +97,10 @@ def cases_for(prop, seed, n):
             t = rng.choice([tt, tt - 1, tt + 1, 0, 1, tt // 2, tt * 3]) if a != b else rng.choice([0, 5, 60])
             t = max(0, int(t))
             h = dist / speed
+            # int(h * 3600) on a double vs on the exact rational: when h * 3600 lands within rounding distance of a whole second the two
+            # legitimately differ (floats are tied to Q only up to 1e-9, DESIGN §9): such inputs are not generated
+            if abs(h * 3600 - round(h * 3600)) < 1e-6:
+                continue
             out.append(('hours_to_seconds', f'Z.eqb (hours_to_seconds {qtxt(h)}) {ztxt(hours_to_seconds(h))}', {'hours': h}))
             tl = w.link(link)
             out.append(('link_travel_time_seconds', f'Z.eqb (link_travel_time_seconds {tl}) {ztxt(tt)}', {'distance_km': dist, 'speed_kmph': speed}))
